@@ -3,7 +3,7 @@
  "name": "block_ind_bmap",
  "props": ["C09"],
  "level": "U",
- "tier": "wip",
+ "tier": "quick",
  "harness": "h_ind",
  "enforce": ["block_ind_bmap"],
  "functions": ["lib/ext2fs/bmap.c:block_ind_bmap"],
@@ -18,7 +18,7 @@
  "name": "block_dind_bmap",
  "props": ["C09"],
  "level": "U",
- "tier": "wip",
+ "tier": "quick",
  "harness": "h_dind",
  "enforce": ["block_dind_bmap"],
  "replace": ["block_ind_bmap"],
@@ -34,7 +34,7 @@
  "name": "block_tind_bmap",
  "props": ["C09"],
  "level": "U",
- "tier": "wip",
+ "tier": "quick",
  "harness": "h_tind",
  "enforce": ["block_tind_bmap"],
  "replace": ["block_ind_bmap", "block_dind_bmap"],
@@ -49,7 +49,7 @@
  "name": "bmap2_ind_dispatch",
  "props": ["C09"],
  "level": "U",
- "tier": "wip",
+ "tier": "quick",
  "harness": "h_bmap2",
  "enforce": ["ext2fs_bmap2"],
  "replace": ["block_ind_bmap", "block_dind_bmap", "block_tind_bmap", "extent_bmap"],
